@@ -116,7 +116,7 @@ func init() {
 		ID:    "C05",
 		Level: "exploration",
 		Rule: "inputs are all sequences of up to k atoms of the text alphabet (@, backslash, braces, dashes, quotes, parentheses, CRLF, UTF-8, directive names that steer the lexer's mode switches and proper prefixes of directive names), the remaining directive names and prefixes in sequences of up to 2, comment bodies of up to k atoms, splices of every text string of up to 2-3 atoms on both sides of 8 constructs, and seeded random atom strings; " +
-			"an independent scanner classifies each string (plain text / escapes only / contains syntax) and gives the expected bytes; plain and escape strings are rendered by the real code and compared byte for byte. also control and non-UTF-8 bytes between all pairs of atoms, texts through template files (String and Response), files up to 3 MiB, directive names in another case; texts at the very start of files incl. U+FEFF, loop splices; round 8: nests to 600 blocks, concurrent text rendering; round 9: 16 more headers and @else bodies in front of every text; concurrent replay; round 11: file API, empty pages; round 16: prints with parentheses inside object and array literals in front of directives with parentheses; distinct_nontrivial = distinct judged sources (by hash)",
+			"an independent scanner classifies each string (plain text / escapes only / contains syntax) and gives the expected bytes; plain and escape strings are rendered by the real code and compared byte for byte. also control and non-UTF-8 bytes between all pairs of atoms, texts through template files (String and Response), files up to 3 MiB, directive names in another case; texts at the very start of files incl. U+FEFF, loop splices; round 8: nests to 600 blocks, concurrent text rendering; round 9: 16 more headers and @else bodies in front of every text; concurrent replay; round 11: file API, empty pages; round 16: prints with parentheses inside object and array literals in front of directives with parentheses; round 17: escapes behind long runs of plain text; distinct_nontrivial = distinct judged sources (by hash)",
 		Assumptions: []string{
 			"a comment starts at '{{--' and ends at the first '--}}' found from the byte after '{{' on; bodies that would form an earlier terminator are skipped",
 			"'\\{{' escapes both braces; '\\@keyword' escapes the '@' only (the keyword letters are plain text anyway)",
